@@ -1,4 +1,19 @@
-/- Driver.C02 — stream `C02` (stub: replaced when the property's model is built). -/
+/-
+  Driver.C02 — stream `C02`: payload `(history tokens*)`: each element of the history is the token list of
+  one parse on the same parser object; the observation is taken after each parse.
+-/
+import Driver.TokIO
 namespace Driver.C02
-def run (_payload : String) : String := "unimplemented"
+open AHP AHP.Sexp Driver.TokIO
+
+def run (payload : String) : String :=
+  match Sexp.parse payload with
+  | some (.list hist) =>
+    match hist.mapM toTokens? with
+    | some hs =>
+      -- every parse starts with `reset()`: the model's `feedTokens` starts from `BState.init`
+      (Sexp.list (hs.map (fun toks => feedSx (feedTokens toks)))).render
+    | none => "bad-case"
+  | _ => "bad-case"
+
 end Driver.C02
